@@ -107,6 +107,7 @@ fn c14_used(w: &mut World, site: &str, log: &RngLog, used: Option<&BigUint>, cas
             w.check("C14", "used-was-offered", offered, case, key("not-offered"), || format!("{site}: used scalar {} was not offered in this call", hex::encode(kb)));
             w.check("C14", "used-in-range", in_range(k), case, key("out-of-range"), || format!("{site}: used scalar {} is outside [1, N-1]", hex::encode(kb)));
             w.scalar_used(site, &kb, case);
+            w.observed.push(("sm9".to_string(), kb.to_vec()));
         }
     }
     for c in &log.offered {
@@ -325,8 +326,10 @@ fn sign(w: &mut World, op: &Value) -> R<Value> {
             format!("(h,S) = {} equals the GM/T 0044.2 value for none of the {} offered r", hex::encode(sig), log.offered.len())
         });
         c14_used(w, "sm9.sign", &log, used.as_ref(), case);
-        let ok = rsm9::with(|p| p.verify(g, &g2_unwire(&ppubs).unwrap(), &id, &msg, &h, &s_pt));
-        w.check("C09", "O9.1-ref-accepts", ok, case, key("ref-verify"), || format!("reference verifier rejects library signature {}", hex::encode(sig)));
+        if !op.get("light").and_then(|v| v.as_bool()).unwrap_or(false) {
+            let ok = rsm9::with(|p| p.verify(g, &g2_unwire(&ppubs).unwrap(), &id, &msg, &h, &s_pt));
+            w.check("C09", "O9.1-ref-accepts", ok, case, key("ref-verify"), || format!("reference verifier rejects library signature {}", hex::encode(sig)));
+        }
         if log.offered.len() > 1 {
             w.bump("probe.sm9.sign.retry");
         }
